@@ -140,7 +140,8 @@ func (g *Gen) mutateOnce(c *Call) {
 		if len(args) >= 2 {
 			n := low64(args[1])
 			c.Args = append([]HB{}, args...)
-			c.Args[1] = pickFrom(g, "mut-nonce", [][]byte{append([]byte{0, 0}, args[1]...), append([]byte{1}, leftPad8(args[1])...), beNonce(n + 1), beNonce(n - 1), {}, {0}})
+			c.Args[1] = pickFrom(g, "mut-nonce", [][]byte{append([]byte{0, 0}, args[1]...), append([]byte{1}, leftPad8(args[1])...), beNonce(n + 1), beNonce(n - 1), {}, {0},
+				{1, 0, 0, 0, 0, 0, 0, 0, 0}, {3, 0, 0, 0, 0, 0, 0, 0, 0}, {1, 0, 0, 0, 0, 0, 0, 0, 0, 0, 0, 0, 0, 0, 0, 0, 0}}) // the last three: non-zero numbers whose low 64 bits are zero
 		}
 	case "count":
 		if c.Fn == vmcommon.BuiltInFunctionMultiESDTNFTTransfer && len(args) >= 2 {
